@@ -248,3 +248,64 @@ Example C08_example_file :
   sumfile_bytes m = bs "example.com/m/a h1:Xw=" ++ [nl] ++ bs "example.com/m/b h1:Yg=" ++ [nl]
   /\ sumfile_load (sumfile_bytes m) = [(bs "example.com/m/a", bs "h1:Xw="); (bs "example.com/m/b", bs "h1:Yg=")].
 Proof. vm_compute. split; reflexivity. Qed.
+
+(* ---- the composed system (Model/Whole.v, Props/Whole.v): this file's model and the pipeline model are one ----
+   Pipeline.exec (C07 / C05 / C02) is run with THIS file's byte-level sumfile_load / sumfile_bytes
+   ([Whole.whole_env]); the theorem says that [run], with its abstract world instantiated by the pipeline's data, is
+   Pipeline.exec: same packages executed in the same order, same success / failure, same gengo.sum afterwards (failed
+   and non-All runs included), same tree (up to the files a failing package had already written: not modelled here). *)
+Require Gengo.Model.Pipeline Gengo.Model.Whole Gengo.Proofs.Pipeline Gengo.Proofs.PipelinePkg Gengo.Proofs.WholeTorn
+  Gengo.Props.Whole.
+
+Theorem C08_whole_sumcache_is_pipeline :
+  forall (E : Pipeline.env) (a : Pipeline.args) (w : Pipeline.world) (gens : list Pipeline.generator),
+    Pipeline.e_sum_load E = sumfile_load -> Pipeline.e_sum_bytes E = sumfile_bytes ->
+    forall (content : Type) (H : content -> option bytes)
+           (dirc : Pipeline.fs -> option bytes -> bytes -> content)
+           (locals : Pipeline.fs -> list bytes -> list (bytes * bool)) (entry : list bytes) (s : Pipeline.fs),
+    locals s entry = Whole.world_locals w ->
+    (forall p, In p (Pipeline.w_pkgs w) ->
+       hash_of Pipeline.fs content H dirc fixed_all (Whole.abs_state w s) (Pipeline.pk_path p) = Pipeline.pk_hash p) ->
+    NoDup (map Pipeline.pk_path (Pipeline.w_pkgs w)) -> Gengo.Proofs.PipelinePkg.files_ok w ->
+    let r := run Pipeline.fs content H dirc (Whole.pkg_step E a w gens) locals fixed_all
+                 (Whole.run_args E a w gens entry s) (Whole.abs_state w s) in
+    Pipeline.exec_trace E a w gens s = flat_map (Whole.pkg_trace E a w gens) (executed (fst (snd r)))
+    /\ snd (snd r) <> ESave
+    /\ (snd (snd r) = ENone <-> Pipeline.exec_outcome E a w gens s = Pipeline.Done)
+    /\ (Pipeline.exec_outcome E a w gens s = Pipeline.Done -> Whole.fail_effects E a w gens (fst (snd r)) = [])
+    /\ st_sum (fst r) = Whole.sum_state w (Pipeline.exec_fs E a w gens s)
+    /\ (forall q, q <> Pipeline.sum_path w ->
+          Pipeline.fs_lookup q (Pipeline.exec_fs E a w gens s)
+          = Pipeline.fs_lookup q (Pipeline.apply_all (Whole.fail_effects E a w gens (fst (snd r))) (st_tree (fst r)))).
+Proof. exact Gengo.Props.Whole.Whole_sumcache_is_pipeline. Qed.
+Print Assumptions C08_whole_sumcache_is_pipeline.
+
+(* C08_skip_only_if as a statement about Pipeline.exec: a package the pipeline leaves alone as cached ... *)
+Theorem C08_whole_skipped_by_pipeline_only_if_recorded_hash :
+  forall (E : Pipeline.env) a w s p,
+    Pipeline.e_sum_load E = sumfile_load ->
+    NoDup (map Pipeline.pk_path (Pipeline.w_pkgs w)) -> Gengo.Proofs.PipelinePkg.files_ok w ->
+    In p (Pipeline.w_pkgs w) -> Pipeline.selected a w p = true -> Gengo.Proofs.Pipeline.processed E a w s p = false ->
+    Pipeline.a_all a = true /\ Pipeline.a_force a = false /\
+    exists b, Pipeline.fs_lookup (Pipeline.sum_path w) s = Some b
+              /\ sum_sum (sumfile_load b) (Pipeline.pk_path p) = Pipeline.pk_hash p
+              /\ Pipeline.pk_hash p <> [].
+Proof. exact Gengo.Props.Whole.Whole_skipped_by_pipeline_only_if_recorded_hash. Qed.
+Print Assumptions C08_whole_skipped_by_pipeline_only_if_recorded_hash.
+
+(* A TORN gengo.sum (sumfile.Save truncates, then writes; a killed process leaves a prefix): every answer of Sum on
+   any prefix of Bytes(m) is a prefix of the answer on m, so every entry Load finds in it carries the recorded hash or
+   a strictly shorter string — with hashes of one length, it can only cause regeneration
+   (composed with the crash points of Execute in C02_whole_crash_then_skip_justified). *)
+Theorem C08_whole_torn_sum_prefix :
+  forall (m : sum) (n : nat) (key : bytes), kv_ok m ->
+    WholeTorn.prefix_of (sum_sum (sumfile_load (firstn n (sumfile_bytes m))) key) (sum_sum m key).
+Proof. exact Gengo.Props.Whole.Whole_torn_sum_prefix. Qed.
+Print Assumptions C08_whole_torn_sum_prefix.
+
+Theorem C08_whole_torn_sum_entries :
+  forall (m : sum) (n : nat) (k v : bytes), kv_ok m ->
+    In (k, v) (sumfile_load (firstn n (sumfile_bytes m))) ->
+    v = sum_sum m k \/ (WholeTorn.prefix_of v (sum_sum m k) /\ List.length v < List.length (sum_sum m k)).
+Proof. exact Gengo.Props.Whole.Whole_torn_sum_entries. Qed.
+Print Assumptions C08_whole_torn_sum_entries.
